@@ -15,6 +15,8 @@ func init() {
 	register(&Rule{ID: "C16.R1", Prop: "C16", Floor: 9, Doc: "host: funded inputs are released on every failure exit (deferred release registered first, disarmed only after broadcast, transaction not shrunk)", Run: c16r1})
 	register(&Rule{ID: "C16.R2", Prop: "C16", Floor: 3, Doc: "renter: every non-success return after funding is preceded by ReleaseInputs", Run: c16r2})
 	register(&Rule{ID: "C16.R4", Prop: "C16", Floor: 10, Doc: "a transaction set always travels with the basis it was produced for", Run: c16r4})
+	register(&Rule{ID: "C16.R6", Prop: "C16", Floor: 1, Doc: "the wallet's ReleaseInputs removes the reservation of every siacoin input it walks (no input is skipped)", Run: c16r6})
+	register(&Rule{ID: "C16.R7", Prop: "C16", Floor: 1, Doc: "the host dispatcher sets a deadline covering reads before it reads from the stream (an abandoned formation ends and releases)", Run: c16r7})
 	register(&Rule{ID: "C16.R5", Prop: "C16", Floor: 12, Doc: "renter: formation, renewal and refresh report success only after the host's signatures were verified over the locally built contract / renewal and the returned set was checked (the guard table of C10.R1 for these three)", Run: func(c *Ctx) {
 		c10guards(c, map[string]bool{"RPCFormContract": true, "RPCRenewContract": true, "rpcRefreshContract": true})
 	}})
@@ -539,5 +541,113 @@ func c16r4(c *Ctx) {
 				}
 			})
 		}
+	}
+}
+
+// c16r6: releasing inputs releases *every* input of the transactions it is given. In the wallet's ReleaseInputs each
+// iteration over a transaction's siacoin inputs removes that input's reservation; an input that is skipped
+// (unconfirmed parents, a special leaf index) stays reserved for the whole reservation period although the
+// formation it was reserved for has failed.
+func c16r6(c *Ctx) {
+	locked := walletLockedField(c.P)
+	raw := c.P.Fn("wallet", "SingleAddressWallet", "ReleaseInputs")
+	f := c.P.Expand(raw, ir.ExpandOpt{Key: "all"})
+	g := f.Graph()
+	c.VisitGraph(f)
+	n := 0
+	unreserves := func(nd *cfgx.Node) bool {
+		for _, call := range f.NodeCalls(nd) {
+			if id, ok := call.Expr.Fun.(*ast.Ident); ok && id.Name == "delete" && len(call.Expr.Args) == 2 && f.FieldOf(call.Expr.Args[0]) == locked {
+				return true
+			}
+		}
+		return false
+	}
+	for _, head := range g.Nodes {
+		rs, ok := head.AST.(*ast.RangeStmt)
+		if !ok {
+			continue
+		}
+		sel, ok := ast.Unparen(rs.X).(*ast.SelectorExpr)
+		if !ok || sel.Sel.Name != "SiacoinInputs" {
+			continue
+		}
+		n++
+		ob := c.Ob(f, "every-input-released", rs.Pos())
+		var body *cfgx.Edge
+		for _, e := range head.Succs {
+			if e.Kind == cfgx.Br0 {
+				body = e
+			}
+		}
+		if body == nil {
+			ob.Unknown("loop body edge not found")
+			continue
+		}
+		if v, skip := g.Reach([]*cfgx.Visit{cfgx.StartAfter(body, 0)}, func(nd *cfgx.Node) bool { return nd.AST != nil && unreserves(nd) })[head]; skip {
+			ob.Bad(c.Witness(v), "an iteration over the inputs at %s can finish without removing the input's reservation: outputs reserved for a failed formation or renewal stay unusable until the reservation period ends", c.P.Pos(rs.Pos()))
+		} else {
+			ob.OK("every input's reservation is removed")
+		}
+	}
+	if n == 0 {
+		ir.Fail("wallet.ReleaseInputs does not walk the transactions' siacoin inputs")
+	}
+}
+
+// c16r7: the host's RPC dispatcher sets a deadline that covers reads before it reads anything from the stream. The
+// formation / renewal handlers wait for the renter's signatures after having funded the transaction; their deferred
+// release runs only when the handler returns, which a silent renter prevents unless reads time out.
+func c16r7(c *Ctx) {
+	readID := c.P.FuncObj("rhp4", "ReadID")
+	n := 0
+	for _, raw := range c.P.MethodsOf("rhp", "Server") {
+		if len(raw.CallsTo(false, readID)) == 0 {
+			continue
+		}
+		f := raw
+		g := f.Graph()
+		for _, rc := range f.CallsTo(false, readID) {
+			if len(rc.Expr.Args) == 0 {
+				continue
+			}
+			stream := f.ObjOf(rc.Expr.Args[0])
+			if stream == nil {
+				continue
+			}
+			n++
+			c.VisitGraph(f)
+			ob := c.Ob(f, "reads-under-deadline", rc.Pos())
+			sets := func(nd *cfgx.Node) bool {
+				if nd.AST == nil {
+					return false
+				}
+				if _, isDefer := nd.AST.(*ast.DeferStmt); isDefer {
+					return false
+				}
+				for _, call := range f.NodeCalls(nd) {
+					if call.Fn == nil || (call.Fn.Name() != "SetDeadline" && call.Fn.Name() != "SetReadDeadline") || len(call.Expr.Args) != 1 {
+						continue
+					}
+					if rcv := call.Recv(); rcv == nil || f.ObjOf(rcv) != stream {
+						continue
+					}
+					if cl, isLit := ast.Unparen(call.Expr.Args[0]).(*ast.CompositeLit); isLit && len(cl.Elts) == 0 {
+						continue
+					}
+					return true
+				}
+				return false
+			}
+			rn := g.NodeContaining(rc.Pos())
+			if _, bypass := g.Reach([]*cfgx.Visit{cfgx.StartAt(g.Entry, 0)}, sets)[rn]; bypass {
+				ob.Bad(nil, "the dispatcher reads the RPC id at %s without a deadline covering reads on the stream: a renter that goes silent after the host funded a formation keeps the handler — and the host's reserved outputs and contract lock — for ever", c.P.Pos(rc.Pos()))
+			} else {
+				ob.OK("a read deadline is set before the first read")
+			}
+		}
+	}
+	if n == 0 {
+		ir.Fail("host RPC dispatcher (Server method calling rhp4.ReadID) not found")
 	}
 }
